@@ -58,7 +58,9 @@ def s_parse_random(rng):
         s = gen.gen_token_soup(rng)
     else:
         # several graphs
-        s = rng.choice(['\n\n', '\n', ' ', '']).join(gen.gen_penman_string(rng) for _ in range(rng.randint(0, 3)))
+        s = rng.choice(['\n\n', '\n', ' ', '']).join(
+            rng.choice(['()', '(a :r () :s b)', '(a / x :ARG0 ()', '( )']) if maybe(rng, 0.15) else gen.gen_penman_string(rng)
+            for _ in range(rng.randint(0, 3)))
         if maybe(rng, 0.3):
             s = gen.perturb(rng, s)
     s = gen.newline_variant(rng, s)
@@ -185,6 +187,14 @@ def s_reset_variables(rng):
         # an index-free format makes the real loop spin forever on a collision (boundary O5):
         # only single-node trees are sent to the real code
         t = (t[0], [b for b in t[1] if not isinstance(b[1], tuple)])
+    if maybe(rng, 0.12) and any(p in ('i', 'j') for p in fmt):
+        # a tree whose variables are already the names this format generates, but on other nodes
+        try:
+            t0 = Tree(t)
+            t0.reset_variables(ops.fmt_string(fmt))
+            t = gen.permute_vars(rng, t0.node)
+        except Exception:  # noqa: BLE001
+            pass
     return {'op': 'reset_variables', 'tree': j_tree(Tree(t)), 'fmt': fmt, 'listNodes': maybe(rng, 0.15)}
 
 
@@ -420,6 +430,9 @@ def gen_stream_text(rng, ngraphs=None, wf=True):
         t = gen.gen_tree(rng, wf=wf)
         md = gen.gen_metadata(rng) if maybe(rng, 0.4) else {}
         parts.append(penman.format(Tree(t, metadata=md), indent=rng.choice([None, -1, 2]), compact=maybe(rng, 0.2)))
+    if maybe(rng, 0.1):
+        # a blank (or blank-only) line between the metadata comments and their graph
+        parts = [p.replace('\n(', rng.choice(['\n\n(', '\n \n(', '\n\t\n\n(']), 1) if p.startswith('#') else p for p in parts]
     if maybe(rng, 0.08):
         parts.insert(rng.randrange(len(parts) + 1), '()')      # the empty graph: graph-level errors only
     s = rng.choice(['\n\n', '\n\n', '\n', ' ']).join(parts)
@@ -431,6 +444,10 @@ def gen_stream_text(rng, ngraphs=None, wf=True):
 def s_main(rng):
     m = rng.choice(['default', 'amr', 'amr', 'noop', gen.CUSTOM_MODELS[1]])
     inputs = [gen_stream_text(rng, wf=maybe(rng, 0.85)) for _ in range(rng.choice([1, 1, 1, 2, 3]))]
+    if m == 'amr' and maybe(rng, 0.2):
+        # inputs that already contain written-out reified relations (collapsible nodes)
+        inputs[0] = '\n\n'.join(penman.format(Tree(gen.reified_tree(rng)), indent=rng.choice([None, -1]))
+                                 for _ in range(rng.randint(1, 2))) + '\n'
     if maybe(rng, 0.1):
         inputs[0] = gen.perturb(rng, inputs[0])
     inputs = [gen.newline_variant(rng, s) for s in inputs]
